@@ -214,6 +214,16 @@ pub fn h264_frame(r: &mut Rng, kind: FrameKind, body_len: usize, decorate: bool)
             nals.push(mk(r, hdr, body_len));
         }
     }
+    if decorate && r.chance(1, 6) {
+        // nal_ref_idc 1 or 2 instead of 3 on parameter sets and reference slices (hardware
+        // encoders do that; only 0 is forbidden for them)
+        let idc = r.range(1, 2) as u8;
+        for n in nals.iter_mut() {
+            if !n.is_empty() && matches!(n[0] & 0x1f, 5 | 7 | 8) {
+                n[0] = (n[0] & 0x9f) | (idc << 5);
+            }
+        }
+    }
     odd_layouts(r, &mut nals, kind, decorate, 0x0c);
     join_nals(r, &nals, decorate)
 }
